@@ -118,3 +118,57 @@ pub(crate) fn crc_update_noop(_this: &mut crc32fast::Hasher, _buf: &[u8]) {}
 /// the same type, which turns each `?` into a recursion through all drop
 /// glue. Leaking custom error payloads has no observable effect on raft-log.
 pub(crate) fn custom_owner_drop(_this: &mut core::io::CustomOwner) {}
+
+// ---- C13: ghost flock table (kernel contract: one holder per lock file) ----
+pub(crate) static mut FLOCK_HOLDER: Option<i32> = None;
+pub(crate) static mut FLOCK_ATTEMPTS: u8 = 0;
+pub(crate) static mut LOCK_OPENS: u8 = 0;
+
+/// OpenOptions::open for the LOCK file: a new fd for every open
+pub(crate) fn open_lock_file<P: AsRef<Path>>(_this: &OpenOptions, _path: P) -> io::Result<File> {
+    use std::os::fd::FromRawFd;
+    unsafe {
+        let fd = gfs::LOCK_FD_BASE + LOCK_OPENS as i32;
+        LOCK_OPENS += 1;
+        Ok(File::from_raw_fd(fd))
+    }
+}
+
+pub(crate) fn try_lock_exclusive(this: &File) -> io::Result<()> {
+    use std::os::fd::AsRawFd;
+    unsafe {
+        FLOCK_ATTEMPTS += 1;
+        match FLOCK_HOLDER {
+            Some(_) => Err(io::Error::from(io::ErrorKind::WouldBlock)),
+            None => {
+                FLOCK_HOLDER = Some(this.as_raw_fd());
+                Ok(())
+            }
+        }
+    }
+}
+
+pub(crate) fn flock_unlock(this: &File) -> io::Result<()> {
+    use std::os::fd::AsRawFd;
+    unsafe {
+        if FLOCK_HOLDER == Some(this.as_raw_fd()) {
+            FLOCK_HOLDER = None;
+        }
+    }
+    Ok(())
+}
+
+/// `<OwnedFd as Drop>::drop` -> no-op: close(2) is a foreign function; the
+/// kernel would also release the flock on close, which `flock_unlock` models.
+pub(crate) fn owned_fd_drop(this: &mut std::os::fd::OwnedFd) {
+    use std::os::fd::AsRawFd;
+    unsafe {
+        if FLOCK_HOLDER == Some(this.as_raw_fd()) {
+            FLOCK_HOLDER = None;
+        }
+    }
+}
+
+pub(crate) fn flock_holder() -> Option<i32> {
+    unsafe { FLOCK_HOLDER }
+}
